@@ -30,6 +30,7 @@
 #include <fcppt/enum/range_impl.hpp>
 #include <fcppt/iterator/adapt_range.hpp>
 #include <fcppt/iterator/make_range.hpp>
+#include <fcppt/algorithm/map.hpp>
 #include <fcppt/iterator/range_impl.hpp>
 #include <fcppt/math/int_range.hpp>
 #include <fcppt/math/int_range_count.hpp>
@@ -47,6 +48,7 @@
 #include <limits>
 #include <list>
 #include <string>
+#include <sstream>
 #include <tuple>
 #include <type_traits>
 #include <utility>
@@ -781,6 +783,32 @@ void itrange_cyclic_case(i64 len, i64 i, i64 j)
   for (auto it = r.begin(); !(it == r.end()) && guard < 64; ++it, ++guard) got.push_back(*it);
   if (got != want) fail("iterator::make_range|sequence|cyclic_iterator", ctx() + ": " + str(got.size()) + " elements, expected " + str(want.size()));
 }
+// iterator::range over genuine single-pass iterators (std::istream_iterator): every element is
+// delivered - to a plain walk and to fcppt::algorithm::map (which asks a range for its size first
+// if it has one: a range must not consume single-pass iterators to answer that)
+void itrange_single_pass_case(i64 len)
+{
+  std::string text;
+  std::vector<int> want;
+  for (i64 k = 0; k < len; ++k)
+  {
+    text += std::to_string(50 + 3 * k) + " ";
+    want.push_back(static_cast<int>(50 + 3 * k));
+  }
+  {
+    std::istringstream in(text);
+    auto const r = fcppt::iterator::make_range(std::istream_iterator<int>(in), std::istream_iterator<int>());
+    std::vector<int> got;
+    for (auto it = r.begin(); it != r.end(); ++it) got.push_back(*it);
+    if (got != want) fail("iterator::make_range|sequence|single-pass", "a range of istream_iterators over " + str(len) + " numbers delivered " + str(got.size()));
+  }
+  {
+    std::istringstream in(text);
+    auto const r = fcppt::iterator::make_range(std::istream_iterator<int>(in), std::istream_iterator<int>());
+    std::vector<int> const got = fcppt::algorithm::map<std::vector<int>>(r, [](int const x) { return x; });
+    if (got != want) fail("iterator::make_range|sequence|single-pass-through-algorithm-map", "algorithm::map over a range of istream_iterators over " + str(len) + " numbers delivered " + str(got.size()) + " elements");
+  }
+}
 void itrange_one(Ints const &c)
 {
   i64 const len = clampi(geti(c, 1), 0, 8), i = clampi(geti(c, 2), 0, len), j = clampi(geti(c, 3), i, len);
@@ -789,6 +817,7 @@ void itrange_one(Ints const &c)
   {
     itrange_cyclic_case(len, i, j);
     itrange_cyclic_case(len, j, i); // the wrapping direction
+    if (i == 0 && j == len) itrange_single_pass_case(len);
   }
   if (geti(c, 0) & 1) itrange_case_in<std::list<int>>(len, i, j, "std::list");
   else itrange_case_in<std::vector<int>>(len, i, j, "std::vector");
